@@ -164,6 +164,7 @@ class ServerWorld:
         self.client = RefSdoClient(ctx, self.ep, 0x600 + node_id, 0x580 + node_id)
         self.entries = {(e.index, e.sub): e for e in entries}
         self.wlog = []      # write callback invocations (index, sub, bytes)
+        self.cb_objects = {}    # bytearrays owned by the application and handed out by the read callback
         self.rlog = 0
         self.local.add_write_callback(self._on_write)
         self.local.add_read_callback(self._on_read)
@@ -178,7 +179,12 @@ class ServerWorld:
         self.rlog += 1
         e = self.entries.get((index, subindex))
         if e is not None and e.cb is not None:
-            # hand the application value over as python value or as bytes
+            # hand the application value over as python value, or - for byte
+            # strings - as the application's own bytearray object (every time the same)
+            if isinstance(e.cb[0], (bytes, bytearray)) and (e.index + e.sub) % 2:
+                if (index, subindex) not in self.cb_objects:
+                    self.cb_objects[(index, subindex)] = bytearray(e.cb[1])
+                return self.cb_objects[(index, subindex)]
             return e.cb[0]
         return None
 
